@@ -214,7 +214,24 @@ func TestVerifC01(t *testing.T) {
 			c.AddContent(d.cat, d.name, d.variant, d.data)
 			ds = append(ds, d)
 		}
-		for i, sel := range [][]vdoc{{ds[0]}, {ds[1]}, {ds[2]}, {ds[1], ds[0], ds[2]}, {ds[0], ds[0]}} {
+		// documents of n distinct words for n where n*(1/n) != 1 in float64 (49, 98, 103, 107): the
+		// pre-filter's ratio for a contained document must be exactly 1 at threshold 1.0 too
+		if th == 1.0 || th == 0.9 {
+			for _, nw := range []int{49, 98, 103, 107} {
+				var ws []string
+				for k := 0; k < nw; k++ {
+					ws = append(ws, fmt.Sprintf("w%dq%s", k, words[k%len(words)]))
+				}
+				d := vdoc{"License", fmt.Sprintf("Distinct-%d", nw), "a.txt", []byte(strings.Join(ws, " ") + "\n")}
+				c.AddContent(d.cat, d.name, d.variant, d.data)
+				ds = append(ds, d)
+			}
+		}
+		sels := [][]vdoc{{ds[0]}, {ds[1]}, {ds[2]}, {ds[1], ds[0], ds[2]}, {ds[0], ds[0]}}
+		for _, d := range ds[3:] {
+			sels = append(sels, []vdoc{d})
+		}
+		for i, sel := range sels {
 			in := vplantInput(r.fork(uint64(77000+10*ti+i)), fmt.Sprintf("min%d_%d", ti, i), sel)
 			var res Results
 			pan, msg := catch(func() { res = c.Match(in.data) })
@@ -506,7 +523,9 @@ var vtransforms = []vtransform{
 	}},
 	// ---- C06
 	{"copyright-lines", "C06", false, func(r *vrand, in []byte) []byte {
-		t := []string{"Copyright 2020 Example Corp.", "Copyright (c) 1999, Jane Doe", "copyright (C) 2011-2015 The Authors", "// Copyright 2008 Foo Inc. All rights reserved.", "  * Copyright 2001. Somebody", "2020-01-02", "1999-dec-31"}
+		t := []string{"Copyright 2020 Example Corp.", "Copyright (c) 1999, Jane Doe", "copyright (C) 2011-2015 The Authors", "// Copyright 2008 Foo Inc. All rights reserved.", "  * Copyright 2001. Somebody", "2020-01-02", "1999-dec-31",
+			// a short prefix with letters or digits before the word (the expression allows any 1-5 characters)
+			"(c) Copyright 2001 Example Corp.", "Also Copyright 2003 Somebody Else", "and copyright (c) 1998, X Y"}
 		prevHyphen := false
 		return vmapLines(in, func(i int, l string) string {
 			ph := prevHyphen
@@ -697,8 +716,8 @@ func vmetaInputs(r *vrand, n int) []vinput {
 	}
 	// curated: URLs inside parentheses and after a colon, section numbers, lettered lists, long lines
 	for i, d := range vnamed("License/Apache-1.1/license.txt", "License/OpenSSL/a.txt", "License/MIT/a.txt",
-		"License/BSD-3-Clause/a.txt", "License/LPPL-1.3c/license.txt", "License/Unicode-DFS-2016/license.txt", "Header/GPL-2.0/h.txt") {
-		if vthorough() || i%3 == int(vseed()%3) || i < 2 || i == 6 {
+		"License/BSD-3-Clause/a.txt", "License/LPPL-1.3c/license.txt", "License/Unicode-DFS-2016/license.txt", "Header/GPL-2.0/h.txt", "License/EPL-1.0/license.txt") {
+		if vthorough() || i%3 == int(vseed()%3) || i < 2 || i >= 6 {
 			out = append(out, vinput{id: fmt.Sprintf("xc%d", i), data: d.data})
 		}
 	}
@@ -897,9 +916,9 @@ func TestVerifC07(t *testing.T) {
 	defer o.close()
 	r := newVrand(vseed() + 61)
 	c := vdefault()
-	n := 28
+	n := 32
 	if vthorough() {
-		n = 700
+		n = 800
 	}
 	vloadFiles()
 	cnt := 0
@@ -907,15 +926,36 @@ func TestVerifC07(t *testing.T) {
 	for i, d := range vpick(r.fork(3), n) {
 		rr := r.fork(uint64(700 + i))
 		var X []byte
-		switch i % 7 {
+		switch i % 8 {
 		case 0:
 			X = d.data
+		case 7:
+			// exactly on the threshold: the first (odd i: the last) int(0.8*n) words of the text
+			ws := strings.Fields(string(d.data))
+			keep := int(0.8 * float64(len(c.createTargetIndexedDocument(d.data).Tokens)))
+			if keep < len(ws) && keep > 0 {
+				if (i/8)%2 == 0 {
+					ws = ws[:keep]
+				} else {
+					ws = ws[len(ws)-keep:]
+				}
+			}
+			var sb strings.Builder
+			for j, w := range ws {
+				sb.WriteString(w)
+				if j%9 == 8 {
+					sb.WriteByte('\n')
+				} else {
+					sb.WriteByte(' ')
+				}
+			}
+			X = []byte(sb.String())
 		case 5, 6:
 			// partial: the first words are missing (5), a block of words inside is missing (6)
 			ws := strings.Fields(string(d.data))
 			cut := len(ws) * (5 + rr.intn(10)) / 100
 			from := 0
-			if i%7 == 6 && len(ws) > 2*cut+2 {
+			if i%8 == 6 && len(ws) > 2*cut+2 {
 				from = cut + rr.intn(len(ws)-2*cut)
 			}
 			ws = append(append([]string(nil), ws[:from]...), ws[from+cut:]...)
@@ -977,7 +1017,7 @@ func TestVerifC07(t *testing.T) {
 				vmatchCase(o, c, "full08", corpusKeys, needs[0], X, true)
 				vmatchCase(o, c, "full08", corpusKeys, needs[1], data, true)
 			}
-			o.verdictSigCorr("C07", fmt.Sprintf("%d_%d", i, pi), what == "", len(base.Matches) > 0, fmt.Sprintf("pos:%s:%d", vhash(X), pi), sig, needs, map[string]interface{}{"what": vclip(what), "doc": vkey(d), "kind": i % 7, "x_hex": vclip(hx(X)), "prefix_lines": pl})
+			o.verdictSigCorr("C07", fmt.Sprintf("%d_%d", i, pi), what == "", len(base.Matches) > 0, fmt.Sprintf("pos:%s:%d", vhash(X), pi), sig, needs, map[string]interface{}{"what": vclip(what), "doc": vkey(d), "kind": i % 8, "x_hex": vclip(hx(X)), "prefix_lines": pl})
 			cnt++
 		}
 	}
@@ -1242,6 +1282,11 @@ func TestVerifC09(t *testing.T) {
 		nIn, G = 80, 64
 	}
 	inputs := vgenInputs(r, nIn/2, nIn/3, nIn/4, 2)
+	// words split across hyphenated line breaks, with words the corpus has never seen on the same lines
+	// (the path that flushes a line early must not intern them into the shared dictionary)
+	for i, d := range vnamed("License/MIT/a.txt", "License/ISC/license.txt") {
+		inputs = append(inputs, vinput{id: fmt.Sprintf("hy%d", i), data: vdenseHyphen(veditWords(r.fork(uint64(40+i)), d.data, 80), 3, "")})
+	}
 	want := make([]string, len(inputs))
 	snap0 := vsnapshot(c)
 	for i, in := range inputs {
@@ -1252,6 +1297,7 @@ func TestVerifC09(t *testing.T) {
 	var wg sync.WaitGroup
 	var mu sync.Mutex
 	bad := ""
+	slow := 0
 	for g := 0; g < G; g++ {
 		wg.Add(1)
 		go func(g int) {
@@ -1259,6 +1305,7 @@ func TestVerifC09(t *testing.T) {
 			for k := 0; k < len(inputs); k++ {
 				i := (k*7 + g*3) % len(inputs)
 				var got string
+				t0 := time.Now()
 				if (g+k)%2 == 0 {
 					got = vshowResults(c.Match(inputs[i].data))
 				} else {
@@ -1267,7 +1314,12 @@ func TestVerifC09(t *testing.T) {
 				}
 				if got != want[i] {
 					mu.Lock()
-					if bad == "" {
+					if time.Since(t0) > 900*time.Millisecond {
+						// every go-diff call gives up after its own 1 s wall-clock deadline and then returns
+						// a coarser script: a call this slow (many goroutines per core, a 9 000-word text) is
+						// not a function of its input (DESIGN §4, DiffSpec.noDeadline) — counted, not compared
+						slow++
+					} else if bad == "" {
 						bad = fmt.Sprintf("goroutine %d input %s: %s vs sequential %s", g, inputs[i].id, got, want[i])
 					}
 					mu.Unlock()
@@ -1279,7 +1331,7 @@ func TestVerifC09(t *testing.T) {
 	o.verdict("C09", "concurrent", bad == "", true, "concurrent", map[string]interface{}{"what": vclip(bad), "goroutines": G, "inputs": len(inputs)})
 	snap2 := vsnapshot(c)
 	o.verdict("C09", "snapshot-conc", snap0 == snap2, true, "snapshot-conc", map[string]interface{}{"what": "concurrent Match calls changed the classifier's corpus state", "before": snap0, "after": snap2})
-	o.stat("C09", map[string]interface{}{"goroutines": G, "inputs": len(inputs)})
+	o.stat("C09", map[string]interface{}{"goroutines": G, "inputs": len(inputs), "slow_calls_not_compared": slow})
 }
 
 // ---------------------------------------------------------------------------
@@ -1290,7 +1342,9 @@ func TestVerifC10(t *testing.T) {
 	defer o.close()
 	r := newVrand(vseed() + 91)
 	vloadFiles()
-	ths := []float64{0, 1e-9, 0.5, 0.8, 1 - 1e-9, 1}
+	// just below 1 the q derived from the threshold is astronomically large (int(t/(1-t))): every
+	// search set clamps it to its document's length
+	ths := []float64{0, 1e-9, 0.5, 0.8, 1 - 1e-9, 1, 0.99999999999999, math.Nextafter(1, 0)}
 	nMal, nMut := 60, 20
 	if vthorough() {
 		nMal, nMut = 3000, 600
